@@ -74,9 +74,18 @@ where
                     };
                     acc
                 });
-        // Choose the group with the most members
-        if let Some((k, v)) = groups.iter().max_by_key(|c| c.1) {
-            if v > &1 {
+        // Choose the group with the most members. On equal member counts the group whose prefix
+        // occurs first among the candidates wins, so that the result does not depend on the
+        // iteration order of the hash map.
+        let mut best: Option<(&[T], i32)> = None;
+        for c in &candidates_with_len_n {
+            let v = groups[c];
+            if best.is_none_or(|(_, best_v)| v > best_v) {
+                best = Some((c, v));
+            }
+        }
+        if let Some((k, v)) = best {
+            if v > 1 {
                 // Found prefix is only useful if the group contains more than one member
                 k.to_vec()
             } else {
